@@ -85,7 +85,8 @@ def path_of(parents, nid):
 
 def explore(cfg, monitors=(), menu=None, menu_opts=None, dev_bound=None,
             state_cap=None, time_cap=None, clone=None, job=None, ctx=None,
-            merge=True, build=None, on_build_error=None, sample_every=0):
+            merge=True, build=None, on_build_error=None, sample_every=0,
+            record_edges=False):
     """Explore one configuration.  Returns (stats dict, ctx)."""
     clone = clone or canon.clone
     o = menu_opts or DEFAULT_OPTS
@@ -124,7 +125,12 @@ def explore(cfg, monitors=(), menu=None, menu_opts=None, dev_bound=None,
             return k
 
         parents = {0: (None, None)}
+        edges = [] if record_edges else None
+        kid = {}
         seen = {fullkey(st0, ms0): 0} if merge else None
+        if record_edges:
+            kid[fullkey(st0, ms0)] = 0
+            node_kid = {0: 0}
         frontier = deque([Node(st0, ms0, 0, 0, 0)])
         nid_counter = 1
         stats['states'] = 1
@@ -163,6 +169,10 @@ def explore(cfg, monitors=(), menu=None, menu_opts=None, dev_bound=None,
                     continue
                 c = clone(st)
                 ctx.cur_event = ev
+                for m in monitors:
+                    f = getattr(m, 'before_apply', None)
+                    if f:
+                        f(c, ev, ctx)
                 try:
                     rec = apply(c, ev)
                 except Exception as exc:
@@ -185,6 +195,9 @@ def explore(cfg, monitors=(), menu=None, menu_opts=None, dev_bound=None,
                 devs = node.devs + cost
                 if merge:
                     k = fullkey(c, ms2)
+                    if record_edges:
+                        dst = kid.setdefault(k, len(kid))
+                        edges.append((node_kid[node.nid], dst))
                     old = seen.get(k)
                     if old is not None and old <= devs:
                         continue
@@ -196,6 +209,8 @@ def explore(cfg, monitors=(), menu=None, menu_opts=None, dev_bound=None,
                 else:
                     stats['states'] += 1
                 parents[nid_counter] = (node.nid, ev)
+                if record_edges:
+                    node_kid[nid_counter] = kid[k]
                 frontier.append(Node(c, ms2, nid_counter, node.depth + 1, devs))
                 nid_counter += 1
             if state_cap and stats['states'] >= state_cap:
@@ -205,4 +220,7 @@ def explore(cfg, monitors=(), menu=None, menu_opts=None, dev_bound=None,
                 stats['capped'] = 'time'
                 break
     stats['wall_s'] = time.time() - t0
+    if record_edges:
+        ctx.edges = edges
+        ctx.n_keys = len(kid)
     return stats, ctx
